@@ -23,7 +23,7 @@
 
 enum {
   K_ACCEPT = VC_USER, K_REJECT, K_NEDATA, K_NODATA, K_MALF, K_MEM, K_SYN, K_AMBIG, K_BN, K_SEQ, K_TRUNC, K_NEIGH,
-  K_INPROGRESS, K_NODES, K_REFUSALS, K_STREAMCALLS, K_PIPELINES, K_TRUNC_SELF
+  K_INPROGRESS, K_NODES, K_REFUSALS, K_STREAMCALLS, K_PIPELINES, K_TRUNC_SELF, K_CORPUS
 };
 
 static unsigned bn_max, dfs_k, neigh_k, trunc_k;
@@ -257,7 +257,30 @@ static void seq_cb(const vf_seq* s, void* ctx) {
   if (status != VD_INPROGRESS && me.ntok <= neigh_k) vf_neighbours(&me, neigh_cb, NULL);
 }
 
+static void corpus_unit(uint64_t i) {
+  size_t n;
+  const char* name;
+  const uint8_t* b = vf_corpus_item(i, &n, &name);
+  va_cap = 1ull << 30;
+  vf_cnt(K_CORPUS, 1);
+  run_input(b, n, true);
+  /* truncations: every offset for small items; near the start, near the end and a stride for big ones */
+  for (size_t c = 1; c < n; c++) {
+    if (n > 700 && !(c < 48 || c + 48 > n || c % 997 == 0)) continue;
+    vf_cnt(K_TRUNC, 1);
+    run_input(b, c, false);
+  }
+  /* one trailing byte of each kind (C14-style independence is judged by C02 as 'first item only') */
+  static uint8_t* ext;
+  ext = realloc(ext, n + 1);
+  memcpy(ext, b, n);
+  ext[n] = 0xff;
+  run_input(ext, n + 1, false);
+  ext[n] = 0x1c;
+  run_input(ext, n + 1, false);
+}
 static void unit(uint64_t u) {
+  if (u >= bn_units + dfs_units) { corpus_unit(u - bn_units - dfs_units); return; }
   if (u < bn_units) {
     va_cap = cap_bn;
     vf_bn_unit(bn_max, u, bn_cb, NULL);
@@ -267,10 +290,11 @@ static void unit(uint64_t u) {
   va_cap = cap_dfs;
   vf_dfs_unit(&VF_SIGMA, dfs_k, u, VF_L, va_cap, seq_cb, NULL);
 }
-static uint64_t units(void) { return bn_units + dfs_units; }
+static uint64_t units(void) { return bn_units + dfs_units + vf_corpus_count(); }
 
 static void init(void) {
   vf_enum_init();
+  vf_corpus_init();
   va_install();
   devnull = fopen("/dev/null", "w");
   bn_max = vf_tier ? 4 : 3;
@@ -334,5 +358,5 @@ struct vf_check vf_the_check = {
                  [K_NODATA] = "NODATA", [K_MALF] = "MALFORMATED", [K_MEM] = "MEMERROR", [K_SYN] = "SYNTAXERROR", [K_AMBIG] = "eager_or_lazy_admitted",
                  [K_BN] = "bn_strings", [K_SEQ] = "dfs_sequences", [K_TRUNC] = "in_head_truncations", [K_NEIGH] = "neighbours",
                  [K_INPROGRESS] = "dfs_sequences_still_open", [K_NODES] = "tree_nodes_compared", [K_REFUSALS] = "inputs_with_refused_allocation",
-                 [K_STREAMCALLS] = "stream_decoder_calls", [K_PIPELINES] = "client_pipelines_run", [K_TRUNC_SELF] = "oracle_selfcheck_prefixes"},
+                 [K_STREAMCALLS] = "stream_decoder_calls", [K_PIPELINES] = "client_pipelines_run", [K_TRUNC_SELF] = "oracle_selfcheck_prefixes", [K_CORPUS] = "boundary_corpus_items"},
     .init = init, .units = units, .unit = unit, .replay = replay, .state_bits = 18};
